@@ -152,7 +152,7 @@ def main():
             ids = a[a.index("--ids") + 1].split(",")
         if "--tier" in a:
             tier = a[a.index("--tier") + 1]
-        sids = sorted(os.listdir(os.path.join(V, "seeded"))) if a[1] == "all" else [a[1]]
+        sids = sorted(d for d in os.listdir(os.path.join(V, "seeded")) if not d.startswith("_")) if a[1] == "all" else [a[1]]
         for sid in sids:
             meta = json.load(open(os.path.join(V, "seeded", sid, "meta.json")))
             target = ids or [meta.get("property", sid[:3])]
